@@ -1066,6 +1066,12 @@ def discharge_local(obls, timeout_ms=20000, seed=0):
             os.makedirs(os.environ['VERIF_DUMP_SMT'], exist_ok=True)
             open(os.path.join(os.environ['VERIF_DUMP_SMT'], _re.sub(r'[^A-Za-z0-9_.-]+', '_', f'{o.contract}-{o.case}-{o.name}-{o.path}')[:150] + '.smt2'), 'w').write(o.smt)
         idx, status, t, model, backend, reason = _solve((i, o.smt, timeout_ms, seed))
+        if status == 'error':
+            # an exception inside the solver call (seen once under heavy machine load, not reproducible): ask once more before
+            # reporting a checker error
+            idx, status, t2, model, backend, reason2 = _solve((i, o.smt, timeout_ms, seed + 7))
+            t += t2
+            reason = reason if status != 'error' else f'{reason}; again: {reason2}'
         o.time, o.backend = t, backend
         if status == 'unsat':
             o.status = 'valid'
